@@ -553,6 +553,54 @@ def generate(rng, tier):
     return cases
 
 
+def extra_checks(rng, tier, workdir):
+    """A real thread pool (concurrent.futures.ThreadPoolExecutor): results, total call counts and expiry of
+    the entries joined from the workers.  Call counts only -- the order of calls is schedule dependent."""
+    from concurrent.futures import ThreadPoolExecutor
+    _install()
+    for _ in range(10 if tier == 'quick' else 60):
+        tmo = rng.choice([None, 3, 5])
+        parts = [[rng.randint(-3, 6) for _ in range(rng.randint(0, 4))] for _ in range(rng.randint(1, 4))]
+        fn = rng.randrange(6)
+        calls = []
+
+        def f(x, fn=fn, calls=calls):
+            calls.append(x)
+            return LIB_MAP[fn](x)
+        CLOCK.t = 0
+        m = CacheManager() if tmo is None else TimedCacheManager(timeout=tmo)
+        with ThreadPoolExecutor(2) as pool:
+            sc = Context(pool=pool, cache_manager=m)
+            rdd = sc._parallelize_partitions([list(p) for p in parts]).map(f).persist()   # pylint: disable=protected-access
+            want = [LIB_MAP[fn](x) for p in parts for x in p]
+            n = len(want)
+            case = ('threadpool', tmo, parts, fn)
+            r1 = rdd.collect()
+            c1 = len(calls)
+            r2 = rdd.collect()
+            c2 = len(calls)
+            if r1 != want or r2 != want:
+                yield ('threadpool:result-differs-from-uncached', 'collect through a thread pool', f'{r1} {r2} {want}', case)
+            if c1 != n or (c2 != c1 and (tmo is None or tmo > 0)):
+                yield ('threadpool:cached-partition-recomputed', 'second collect called the map function again',
+                       f'calls {c1} then {c2}, elements {n}', case)
+            if tmo is not None:
+                CLOCK.t = tmo + 1
+                m.gc()
+                if m.cache_obj:
+                    yield ('TimedCacheManager.gc:expired-entry-survives', 'entries joined from pool workers survive gc',
+                           f'{list(m.cache_obj)} at {CLOCK.t}, timeout {tmo}', case)
+                r3 = rdd.collect()
+                if r3 != want or len(calls) != c2 + n:
+                    yield ('threadpool:not-recomputed-after-expiry', 'collect after expiry',
+                           f'{r3} calls {len(calls)} expected {c2 + n}', case)
+            ret = rdd.unpersist()
+            if [k for k in m.cache_obj if k[0] == rdd.id()]:
+                yield ('unpersist:entry-left-behind', 'after a pool job', f'{list(m.cache_obj)}', case)
+            if ret.collect() != want:
+                yield ('unpersist:contents-differ', 'after a pool job', '', case)
+
+
 def shrink_candidates(case):
     managers, contexts, pipelines, history = case
     for t in range(len(history)):
